@@ -374,7 +374,8 @@ where
 
             token::required_newline(&mut self.parser.reader)?;
         }
-        self.parser.code += 2;
+        // Wraps around only after the very last variable, when no further definition can follow.
+        self.parser.code = self.parser.code.wrapping_add(2);
         Ok(Some(OrderedLatch {
             next_state,
             initialization,
@@ -651,7 +652,8 @@ where
             "first input code",
         )?;
 
-        self.parser.code += 2;
+        // Wraps around only after the very last variable, when no further definition can follow.
+        self.parser.code = self.parser.code.wrapping_add(2);
         Ok(Some(OrderedAndGate {
             inputs: [L::from_code(input_code_0), L::from_code(input_code_1)],
         }))
@@ -886,7 +888,8 @@ where
                 self.writer.write_all_defer_err(b"\n");
             }
         }
-        self.code += 2;
+        // Wraps around only after the very last variable, when no further definition can follow.
+        self.code = self.code.wrapping_add(2);
     }
 
     pub fn write_count(&mut self, count: usize) {
@@ -906,7 +909,8 @@ where
 
         self.write_binary_uint(delta_0);
         self.write_binary_uint(delta_1);
-        self.code += 2;
+        // Wraps around only after the very last variable, when no further definition can follow.
+        self.code = self.code.wrapping_add(2);
     }
 
     fn write_binary_uint(&mut self, mut code: usize) {
